@@ -14,6 +14,8 @@ CHECKS = {
          "The chained hash is checked metamorphically (function of content), never re-implemented. 'Different rows or deletion records => different logs' is evaluated on rows and deletion records (references are not part of the log by design)."),
  "C11": ("repl", "exploration", "After every step, on every node, no row or reference is stored at the deleted or an older version while that node holds its deletion record; after heal the row is absent and the record present everywhere.",
          "Rows updated elsewhere to a version newer than the deleted one are outside the statement. Multi-entity rooms inherit the open summary-blindness finding of C03."),
+ "C16": ("phase", "exploration", "2-3 mutations of one row in flight together on a live node (concurrent callers or the mutation stream); the simulator decides with the batch gate whether each later mutation is read before or after the earlier ones are written; the final row must equal the acknowledged mutations applied serially in some order.",
+         "Open known finding: no per-row serialisation, so every schedule in which two mutations are in flight together loses a change; schedules where mutations run one at a time are checked in full (a lost update there is a new violation)."),
  "C17": ("repl", "exploration", "At every barrier each vocabulary token is searched on every node and compared with the node's own current text (plain query of the same node); shapes distinguish how the stored version arrived.",
          "Three open known findings: the synchronisation path and deletions never maintain the contentless full-text index; locally written, never-synchronised rows are checked in full."),
  "C01": ("rights", "exploration", "2-4 identities and 1-2 rooms with evolving definitions; every operation shape by any identity; each API verdict compared with an independent rights model at the operation's date; a refused operation must leave the whole database (rows, references, deletion logs, daily log, room change log) unchanged; direct mutations or deletions of authorisation rows must be refused.",
@@ -24,6 +26,8 @@ CHECKS = {
          "The two implementations are each other's oracle. Inherits the open summary-blindness finding for writes touching a second entity of the last day."),
  "C13": ("crash", "exploration", "One node under the batch gate and 15 writer fault points x {statement error once, sticky, crash in transaction}: every operation is entirely present or absent, acknowledged operations survive the fault and a restart, failed ones leave nothing, the log is consistent after the start-up recomputation, and a fault-free request is served after a transient error.",
          "Statement-level injection inside the real write functions (the shipped ROLLBACK handling runs; a COMMIT failure is produced for real with a deferred foreign-key violation). In-process crash = writer thread dies inside the open transaction and the node restarts on the same files; torn pages / power loss are out of reach (no VFS seam)."),
+ "C20": ("lock", "exploration", "The real RoomLockService actor under seeded message schedules (requests, repeated and overlapping requests, releases, stray and double unlocks, connection ends, receivers dropped while waiting): a room is held by at most one connection, at most `limit` rooms at once, grants only for pending requests, and after the last fault every pending request of a live connection is granted once the holders release.",
+         "Abstract, well-behaved clients own the reply channels; the behaviour of the real connection loop at disconnection is exercised separately (conn engine) when registered. 40 schedules per child process (the actor does not iterate hash maps)."),
  "C18": ("crash,repl", "exploration", "Subscriber subscribed before the run; mutations, deletions, streams, room mutations and recomputation passes grouped into chosen transactions through the batch gate, plus batches ingested by real pulls: every acknowledged change must be covered by a DataChanged (room, entity, day) or RoomModified event.",
          "No requirement on which event or how many. The 16-slot broadcast is drained at every settle so the harness never lags."),
 }
